@@ -79,7 +79,7 @@ theorem mono_mutual {cfg} : ∀ fuel,
       simp only [parseMembers]
       generalize (if ((cur s).1 == 0x22 || (cur s).1 == 0x27) = true then parseQuoted cfg (cur s).1 (f+1) [] 0 (mv (cur s).2)
             else if inUnquoted (cur s).1 = true then
-              (Code.ok, (parseUnquoted (f+1) [] (cur s).2).1, (parseUnquoted (f+1) [] (cur s).2).2)
+              ((if (parseUnquoted (f+1) [] (cur s).2).1.length > cfg.maxStrLen then Code.noMemory else Code.ok), (parseUnquoted (f+1) [] (cur s).2).1, (parseUnquoted (f+1) [] (cur s).2).2)
             else (Code.invalid, [], (cur s).2)) = kr
       obtain ⟨kc, key, s1⟩ := kr
       cases kc <;> simp only <;> try exact same_rfl
@@ -331,7 +331,7 @@ theorem mono_fmutual {cfg} : ∀ fuel,
       simp only [fparseMembers]
       generalize (if ((cur s).1 == 0x22 || (cur s).1 == 0x27) = true then parseQuoted cfg (cur s).1 (f+1) [] 0 (mv (cur s).2)
             else if inUnquoted (cur s).1 = true then
-              (Code.ok, (parseUnquoted (f+1) [] (cur s).2).1, (parseUnquoted (f+1) [] (cur s).2).2)
+              ((if (parseUnquoted (f+1) [] (cur s).2).1.length > cfg.maxStrLen then Code.noMemory else Code.ok), (parseUnquoted (f+1) [] (cur s).2).1, (parseUnquoted (f+1) [] (cur s).2).2)
             else (Code.invalid, [], (cur s).2)) = kr
       obtain ⟨kc, key, s1⟩ := kr
       cases kc <;> simp only <;> try exact same_rfl
